@@ -33,6 +33,7 @@ var (
 	ErrDBExists          = errors.New("database already exists")
 	ErrDBNotExist        = errors.New("database does not exist")
 	ErrDBNotSelected     = errors.New("database not been selected")
+	ErrDBNameInvalid     = errors.New("invalid database name")
 	ErrFieldAmbiguous    = errors.New("field is ambiguous")
 	ErrFieldNotFound     = errors.New("field not found")
 	ErrTableAlreadyExist = errors.New("table already exists")
@@ -355,7 +356,7 @@ func ShowDB() ([]*Row, []*Field, error) {
 
 func CreateDB(dbName string) error {
 	if err := makeDBDir(dbName); err != nil {
-		panic(fmt.Sprintf("error making db dir: %s", err.Error()))
+		return fmt.Errorf("error making db dir: %w", err)
 	}
 
 	path, exists, err := dbFilePath(dbName)
